@@ -395,7 +395,7 @@ fn rejects_weighted<const N: usize>() {
 // AdjacencyMatrix, real std, arbitrary 3-vertex start + 3 ops incl. toggle.
 // @verif prop=C01 tier=quick fl=f0 role=history/matrix t=600 mem=10
 #[cfg_attr(kani, kani::proof)]
-#[cfg_attr(kani, kani::unwind(8))]
+#[cfg_attr(kani, kani::unwind(10))]
 pub fn c01_history_matrix_n3_k3() {
     history_fixed::<AdjacencyMatrix, 3, 3>();
 }
@@ -410,7 +410,7 @@ pub fn c01_history_matrix_n8_k2() {
 
 // @verif prop=C01 tier=quick fl=f0 role=rejects/matrix t=600 mem=10 expect=panic
 #[cfg_attr(kani, kani::proof)]
-#[cfg_attr(kani, kani::unwind(8))]
+#[cfg_attr(kani, kani::unwind(10))]
 pub fn c01_rejects_matrix_n3() {
     rejects_fixed::<AdjacencyMatrix, 3>();
 }
@@ -443,12 +443,12 @@ pub fn c01_rejects_adjacency_list_n3() {
     rejects_fixed::<AdjacencyList, 3>();
 }
 
-// AdjacencyMap::empty(2) + arbitrary arcs, then 3 ops with ids 0..4 (vertex growth).
-// @verif prop=C01 tier=quick fl=f1 feat=map4 role=history/adjacency-map t=900 mem=12
+// AdjacencyMap::empty(2) + arbitrary arcs, then 2 ops with ids 0..4 (vertex growth).
+// @verif prop=C01 tier=quick fl=f1 feat=map4 role=history/adjacency-map t=1500 mem=20
 #[cfg_attr(kani, kani::proof)]
 #[cfg_attr(kani, kani::unwind(10))]
-pub fn c01_history_adjacency_map_n2_x4_k3() {
-    history_map::<2, 4, 3>();
+pub fn c01_history_adjacency_map_n2_x4_k2() {
+    history_map::<2, 4, 2>();
 }
 
 // @verif prop=C01 tier=quick fl=f1 feat=map4 role=rejects/adjacency-map t=600 mem=10 expect=panic
@@ -458,7 +458,7 @@ pub fn c01_rejects_adjacency_map_n3() {
     rejects_map::<3>();
 }
 
-// @verif prop=C01 tier=quick fl=f1 feat=map4 role=history/weighted t=900 mem=12
+// @verif prop=C01 tier=quick fl=f1 feat=map4 role=history/weighted t=1500 mem=16
 #[cfg_attr(kani, kani::proof)]
 #[cfg_attr(kani, kani::unwind(10))]
 pub fn c01_history_weighted_n3_k2() {
